@@ -143,7 +143,7 @@ def run_traces(run, n_quick=3000, n_thorough=50000, salt=0, maxlen=90, parse_onl
                            "SearchParams/clone on 3 handles) and validated by TLC against UrlApi.tla, state adopted from the log after every event" % n)
 
 
-def run_scan(run, explore_quick=1000000, keep_quick=30000, explore_thorough=12000000, keep_thorough=400000, setter_pct=0, salt=0, parser=None, vocab=None, tags=None):
+def run_scan(run, explore_quick=1000000, keep_quick=30000, explore_thorough=6000000, keep_thorough=240000, setter_pct=0, salt=0, parser=None, vocab=None, tags=None):
     """Novelty scan (T-mode front end): the driver explores a token-generated space of calls on the real code and records one representative
     of each of the rarest behaviour classes; TLC validates every recorded event exactly (Trace_Api.tla) - verdicts come from TLC only."""
     q = run.tier == "quick"
